@@ -74,29 +74,41 @@ type Inject struct {
 	Key string `json:"key"` // split the region containing this key at this key
 }
 type Case struct {
-	ID      int      `json:"id"`
-	Kind    string   `json:"kind"` // gc | part | del | vis
-	Class   string   `json:"class,omitempty"`
-	Splits  []string `json:"splits"`
-	Script  []Op     `json:"script,omitempty"`
-	Keys    []string `json:"keys,omitempty"` // audited key universe
-	SP      uint64   `json:"sp,omitempty"`
-	Mode    string   `json:"mode,omitempty"` // gc: custom | phase | full
-	Limit   uint32   `json:"limit,omitempty"`
-	Conc    int      `json:"conc,omitempty"`
-	RPT     int      `json:"rpt,omitempty"`
-	S       string   `json:"s"`
-	E       string   `json:"e"`
-	Inj     []Inject `json:"inj,omitempty"`
-	PdInj   []Inject `json:"pdinj,omitempty"`
-	FailAt  int      `json:"failat,omitempty"`  // part: 1-based index (call order) of the handler call that fails; 0 = none
-	Notify  bool     `json:"notify,omitempty"`  // del
-	ReadTS  []uint64 `json:"readts,omitempty"`  // gc: snapshot reads after the pass; vis: read timestamps
-	Cached  uint64   `json:"cached,omitempty"`  // vis: cached txn safe point
-	Stale   bool     `json:"stale,omitempty"`   // vis: cache older than the allowed interval
-	Barrier uint64   `json:"barrier,omitempty"` // gc mode full: a GC barrier that blocks the txn safe point at this ts
+	ID        int      `json:"id"`
+	Kind      string   `json:"kind"` // gc | part | del | vis
+	Class     string   `json:"class,omitempty"`
+	Splits    []string `json:"splits"`
+	Script    []Op     `json:"script,omitempty"`
+	Keys      []string `json:"keys,omitempty"` // audited key universe
+	SP        uint64   `json:"sp,omitempty"`
+	Mode      string   `json:"mode,omitempty"` // gc: custom | phase | full
+	Limit     uint32   `json:"limit,omitempty"`
+	Conc      int      `json:"conc,omitempty"`
+	RPT       int      `json:"rpt,omitempty"`
+	S         string   `json:"s"`
+	E         string   `json:"e"`
+	Inj       []Inject `json:"inj,omitempty"`
+	PdInj     []Inject `json:"pdinj,omitempty"`
+	FailAt    int      `json:"failat,omitempty"`     // part: 1-based index (call order) of the handler call that fails; 0 = none
+	Notify    bool     `json:"notify,omitempty"`     // del
+	ReadTS    []uint64 `json:"readts,omitempty"`     // gc: snapshot reads after the pass; vis: read timestamps
+	Cached    uint64   `json:"cached,omitempty"`     // vis: cached txn safe point
+	Stale     bool     `json:"stale,omitempty"`      // vis: cache older than the allowed interval
+	Path      string   `json:"path,omitempty"`       // vist: get | batchget | scan | rscan
+	BatchSize int      `json:"batch_size,omitempty"` // vist: scan batch size
+	TS        uint64   `json:"ts,omitempty"`         // vist: read timestamp
+	VisInj    []VisInj `json:"visinj,omitempty"`     // vist: safe-point updates at chosen instants
+	Barrier   uint64   `json:"barrier,omitempty"`    // gc mode full: a GC barrier that blocks the txn safe point at this ts
 }
 
+// VisInj: UpdateTxnSafePointCache(SP) at the At-th data RPC (Get/BatchGet/Scan, 1-based, arrival order) of the read:
+// When = before (inside SendRequest, before the inner call) | after_inner (inside SendRequest, after the inner call
+// returned, i.e. the response exists but the client has not seen it yet) | after_call (At ignored: after the API call returned)
+type VisInj struct {
+	At   int    `json:"at"`
+	When string `json:"when"`
+	SP   uint64 `json:"sp"`
+}
 type Lock struct {
 	Start   uint64 `json:"start"`
 	Primary string `json:"primary"`
@@ -131,6 +143,9 @@ type Event struct {
 	TTL    uint64      `json:"ttl,omitempty"`
 	Notify bool        `json:"notify,omitempty"`
 	Layout []string    `json:"layout,omitempty"`
+	Cmd    string      `json:"cmd,omitempty"`
+	Pairs  int         `json:"pairs,omitempty"`
+	SP     uint64      `json:"sp,omitempty"`
 	Err    string      `json:"err,omitempty"`
 }
 type Read struct {
@@ -187,6 +202,9 @@ type world struct {
 	pdInj  map[int][]string
 	splits map[string]bool
 	total  int
+	visOn  bool
+	visN   int
+	visInj []VisInj
 	n2     bool // normalisation N2 active: split ResolveLock{TxnInfos} into single-transaction resolves
 	raw    bool // no normalisation at all (probe)
 }
@@ -301,6 +319,42 @@ func (g *gate) SendRequest(ctx context.Context, addr string, req *tikvrpc.Reques
 	w.mu.Unlock()
 	if over {
 		return nil, errors.New("verif: RPC budget exceeded (livelock?)")
+	}
+	if w.visOn && (req.Type == tikvrpc.CmdGet || req.Type == tikvrpc.CmdBatchGet || req.Type == tikvrpc.CmdScan) {
+		w.mu.Lock()
+		w.visN++
+		n := w.visN
+		w.mu.Unlock()
+		probe := tikv.StoreProbe{KVStore: w.store}
+		apply := func(when string) {
+			for _, vi := range w.visInj {
+				if vi.At == n && vi.When == when {
+					probe.UpdateTxnSafePointCache(vi.SP, time.Now())
+					w.logEv(Event{T: "update", N: n, S: when, SP: vi.SP})
+				}
+			}
+		}
+		apply("before")
+		w.logEv(Event{T: "send", N: n, Cmd: req.Type.String()})
+		resp, err := g.Client.SendRequest(ctx, addr, req, timeout)
+		apply("after_inner")
+		ev := Event{T: "response", N: n, Cmd: req.Type.String(), Err: regionErrOf(resp)}
+		if err != nil {
+			ev.Err = "err:" + err.Error()
+		} else if ev.Err == "" {
+			switch r := resp.Resp.(type) {
+			case *kvrpcpb.ScanResponse:
+				ev.Pairs = len(r.Pairs)
+			case *kvrpcpb.BatchGetResponse:
+				ev.Pairs = len(r.Pairs)
+			case *kvrpcpb.GetResponse:
+				if !r.NotFound {
+					ev.Pairs = 1
+				}
+			}
+		}
+		w.logEv(ev)
+		return resp, err
 	}
 	switch req.Type {
 	case tikvrpc.CmdScanLock:
@@ -751,6 +805,72 @@ func runCase(c *Case) *Result {
 		res.Done = task.CompletedRegions()
 		res.Events = w.events
 		res.Post = w.dump(c.Keys)
+	case "vist":
+		probe := tikv.StoreProbe{KVStore: w.store}
+		_, _ = w.store.GetPDClient().GetGCInternalController(constants.NullKeyspaceID).AdvanceTxnSafePoint(ctx, c.Cached)
+		probe.UpdateTxnSafePointCache(c.Cached, time.Now())
+		w.visInj = c.VisInj
+		w.visOn = true
+		snap := w.store.GetSnapshot(c.TS)
+		if c.BatchSize > 0 {
+			snap.SetScanBatchSize(c.BatchSize)
+		}
+		rd := Read{Key: c.Path, TS: c.TS}
+		var got []string
+		var rerr error
+		switch c.Path {
+		case "get":
+			var e kv.ValueEntry
+			e, rerr = snap.Get(ctx, unhx(c.Keys[0]))
+			if rerr == nil {
+				got = append(got, c.Keys[0]+"="+hex.EncodeToString(e.Value))
+			}
+		case "batchget":
+			bk := make([][]byte, 0, len(c.Keys))
+			for _, k := range c.Keys {
+				bk = append(bk, unhx(k))
+			}
+			var m map[string]kv.ValueEntry
+			m, rerr = snap.BatchGet(ctx, bk)
+			for k, v := range m {
+				got = append(got, hx([]byte(k))+"="+hex.EncodeToString(v.Value))
+			}
+			sort.Strings(got)
+		case "scan", "rscan":
+			var it interface {
+				Valid() bool
+				Key() []byte
+				Value() []byte
+				Next() error
+			}
+			if c.Path == "scan" {
+				it, rerr = snap.Iter(unhx(c.S), unhx(c.E))
+			} else {
+				it, rerr = snap.IterReverse(unhx(c.E), unhx(c.S))
+			}
+			for rerr == nil && it.Valid() {
+				got = append(got, hx(it.Key())+"="+hex.EncodeToString(it.Value()))
+				rerr = it.Next()
+			}
+		}
+		w.visOn = false
+		for _, vi := range c.VisInj {
+			if vi.When == "after_call" {
+				probe.UpdateTxnSafePointCache(vi.SP, time.Now())
+				w.logEv(Event{T: "update", S: "after_call", SP: vi.SP})
+			}
+		}
+		rd.Res = errClass(rerr)
+		if rerr == nil || rd.Res == "N" {
+			rd.Res = "ok"
+		}
+		res.Vis = []Read{rd}
+		res.Locks = got // entries returned before the verdict
+		res.Events = w.events
+		// a later read of the same snapshot sees the after_call update
+		if _, lerr := w.store.GetSnapshot(c.TS).Get(ctx, unhx(c.Keys[0])); true {
+			res.Vis = append(res.Vis, Read{Key: "later-get", TS: c.TS, Res: errClass(lerr)})
+		}
 	case "vis":
 		probe := tikv.StoreProbe{KVStore: w.store}
 		// keep the background poller consistent with what we put into the cache
@@ -1293,6 +1413,54 @@ func (g *gen) visCase() *Case {
 	return c
 }
 
+// safe point learned at a chosen instant of a read (before send / response in flight / after the call), per access
+// path and per batch of a multi-batch scan
+func (g *gen) vistCase(path string) *Case {
+	g.id++
+	c := &Case{ID: g.id, Kind: "vist", Class: "vist-" + path, Path: path, S: "-", E: "-"}
+	keys := g.keys(4 + g.r.Intn(8))
+	c.Splits = g.splits(g.r.Intn(4), keys)
+	ts := uint64(10)
+	for _, k := range keys {
+		ts += 5
+		c.Script = append(c.Script, Op{Op: "prewrite", Key: hx([]byte(k)), Primary: hx([]byte(k)), Start: ts, Kind: "put", Val: hx([]byte(fmt.Sprintf("d%d", ts)))})
+		c.Script = append(c.Script, Op{Op: "commit", Key: hx([]byte(k)), Start: ts, Commit: ts + 2})
+		c.Keys = append(c.Keys, hx([]byte(k)))
+	}
+	c.TS = ts + 10 + uint64(g.r.Intn(20))
+	c.Cached = c.TS - uint64(g.r.Intn(5))
+	if path == "get" {
+		c.Keys = []string{c.Keys[g.r.Intn(len(c.Keys))]}
+	}
+	c.BatchSize = 1 + g.r.Intn(3)
+	nrpc := 1
+	if path == "scan" || path == "rscan" {
+		nrpc = len(keys)/c.BatchSize + len(c.Splits) + 1
+	} else if path == "batchget" {
+		nrpc = len(c.Splits) + 1
+	}
+	ninj := g.r.Intn(3)
+	if g.r.Intn(4) > 0 && ninj == 0 {
+		ninj = 1
+	}
+	for i := 0; i < ninj; i++ {
+		when := []string{"before", "after_inner", "after_inner", "after_call"}[g.r.Intn(4)]
+		sp := c.TS + uint64(1+g.r.Intn(3))
+		switch g.r.Intn(6) {
+		case 0:
+			sp = c.TS // equal: still visible
+		case 1:
+			sp = c.TS - 1
+		}
+		c.VisInj = append(c.VisInj, VisInj{At: 1 + g.r.Intn(nrpc), When: when, SP: sp})
+	}
+	if g.r.Intn(6) == 0 { // raised before the send, lowered again while the response is in flight
+		at := 1 + g.r.Intn(nrpc)
+		c.VisInj = []VisInj{{At: at, When: "before", SP: c.TS + 2}, {At: at, When: "after_inner", SP: c.TS}}
+	}
+	return c
+}
+
 // ---------------------------------------------------------------- main
 
 func main() {
@@ -1362,6 +1530,10 @@ func main() {
 		{func() *Case { return g.delCase("split") }, 30},
 		{func() *Case { return g.delCase("notify") }, 15},
 		{func() *Case { return g.visCase() }, 25},
+		{func() *Case { return g.vistCase("get") }, 20},
+		{func() *Case { return g.vistCase("batchget") }, 25},
+		{func() *Case { return g.vistCase("scan") }, 45},
+		{func() *Case { return g.vistCase("rscan") }, 35},
 	}
 	for _, p := range plan {
 		for i := 0; i < p.n*scale; i++ {
